@@ -78,6 +78,12 @@ pub fn string_to_tokens(file_id: usize, content: &str) -> Vec<PlacedToken> {
             if is_newline {
                 last_newline = char_at_byte[byte_range.start].unwrap();
                 line += 1;
+            } else {
+                // Tokens like strings can span multiple lines.
+                for (offset, _) in content[byte_range.clone()].match_indices('\n') {
+                    last_newline = char_at_byte[byte_range.start + offset].unwrap();
+                    line += 1;
+                }
             }
             PlacedToken { token, span }
         })
